@@ -59,7 +59,7 @@ impl Scenario for C05 {
         "exploration"
     }
     fn rule(&self) -> String {
-        "(1) Exhaustive: every sequence of up to 2 (quick) / 3 (thorough) lines over the 65-kind alphabet, in each of the four encodings, one-shot delivery. (2) Files are seeded sequences (length 0..40) over the property's line-kind alphabet (blank, whitespace-only, comments, version lines good/bad/suffixed/prefix-only, the 11 headers, unknown/indented/suffixed/bracket-only headers, valid and invalid records, lines with characters whose UTF-16 code units contain byte 0x0A/0x0D), LF or CRLF terminators, with or without final newline, in all four encodings, delivered through a random simulated transport (chunk schedules, first chunk < 3, Interrupted, std BufReader capacities); plus every bundled file in four encodings. The recorded (section, line) delivery history and the version given to State::create must equal the reference router's. Also: from_path entry points (regular file, pipe by path); for the seven one- or two-section decoders the real decoder's result for the file must equal its result for the file reduced to those sections' deliveries; a re-entrant stub recorder starts nested decodes from inside its callbacks. Round 8: CR-prefixed lines, LF-CR ends, UTF-16 storage cut anywhere / dangling byte, Beatmap's own entry points compared with from_bytes. Round 10: plausible non-section names ([Fonts], [Storyboard], ...). distinct_nontrivial = distinct plan hashes with at least 2 lines.".into()
+        "(1) Exhaustive: every sequence of up to 2 (quick) / 3 (thorough) lines over the 65-kind alphabet, in each of the four encodings, one-shot delivery. (2) Files are seeded sequences (length 0..40) over the property's line-kind alphabet (blank, whitespace-only, comments, version lines good/bad/suffixed/prefix-only, the 11 headers, unknown/indented/suffixed/bracket-only headers, valid and invalid records, lines with characters whose UTF-16 code units contain byte 0x0A/0x0D), LF or CRLF terminators, with or without final newline, in all four encodings, delivered through a random simulated transport (chunk schedules, first chunk < 3, Interrupted, std BufReader capacities); plus every bundled file in four encodings. The recorded (section, line) delivery history and the version given to State::create must equal the reference router's. Also: from_path entry points (regular file, pipe by path); for the seven one- or two-section decoders the real decoder's result for the file must equal its result for the file reduced to those sections' deliveries; a re-entrant stub recorder starts nested decodes from inside its callbacks. Round 8: CR-prefixed lines, LF-CR ends, UTF-16 storage cut anywhere / dangling byte, Beatmap's own entry points compared with from_bytes. Round 10: plausible non-section names ([Fonts], [Storyboard], ...). Round 11: version numbers at the i32 edges; 1e4..2e5 leading blank lines. distinct_nontrivial = distinct plan hashes with at least 2 lines.".into()
     }
     fn assumptions(&self) -> Vec<String> {
         vec![
